@@ -146,8 +146,15 @@ impl StateSpace for SO2StateSpace {
 
     /// Checks if a state is within the defined angular bounds.
     fn satisfies_bounds(&self, state: &Self::StateType) -> bool {
-        let val = state.clone().normalise().value;
         let (lower, upper) = self.bounds;
+        let value = state.value;
+        // An angle that is already canonical is compared as it is: wrapping is not exact in floating
+        // point and maps PI to -PI, so re-wrapping could move a value lying on a bound (for example
+        // the one `enforce_bounds` has just stored) to the other side of it.
+        if value >= -PI && value <= PI {
+            return value >= lower && value <= upper;
+        }
+        let val = state.clone().normalise().value;
         val >= lower && val <= upper
     }
 
